@@ -228,10 +228,10 @@ func portOfLen(n, salt int) string {
 }
 
 type c08Built struct {
-	hdr            []byte
-	src, dst       net.IP
-	sport, dport   int
-	ok             bool
+	hdr          []byte
+	src, dst     net.IP
+	sport, dport int
+	ok           bool
 }
 
 func c08Build(d c08Desc, salt int) c08Built {
@@ -386,10 +386,10 @@ func split(data []byte, cuts []int) [][]byte {
 }
 
 type c08Outcome struct {
-	accepted          bool
-	ra, la            net.Addr
-	payload           []byte
-	err               string
+	accepted bool
+	ra, la   net.Addr
+	payload  []byte
+	err      string
 }
 
 func c08One(ln *proxyproto.Listener, fl *chanListener, segs [][]byte) (c08Outcome, *sconn) {
@@ -571,9 +571,9 @@ func c08Conc(e *env) {
 			}
 			type ret struct {
 				who, op, addr, err string
-				n                   int
-				at                  time.Duration
-				data                string
+				n                  int
+				at                 time.Duration
+				data               string
 			}
 			var evMu sync.Mutex
 			var evs []map[string]any
